@@ -265,6 +265,17 @@ def phi_2D_to_3D_split_1(xx, phi_2D, deme_ids=None):
 
     return phi_2D_to_3D_admix(phi_2D,1,xx,xx,xx, deme_ids)
 
+def _check_proportions(*fs):
+    """
+    Ensure that admixture proportions are sensible.
+
+    The proportions must not sum to more than one. A small tolerance allows for
+    round-off in sums such as 0.1 + 0.2 + 0.7.
+    """
+    if numpy.sum(fs) > 1 + 1e-12:
+        raise ValueError('Admixture proportions (%s) are non-sensible: they '
+                         'sum to more than 1.' % ', '.join('%f' % f for f in fs))
+
 def _admixture_intermediates(phi, ad_z, zz):
     # Find where those z values map to in the zz array.
     # Note that zz[upper_z[ii,jj]] >= ad_z[ii,jj]
@@ -320,7 +331,7 @@ def _three_pop_admixture_intermediates(phi_3D, f1,f2, xx,yy,zz,ww):
     """
     # For each point x,y,z in phi, this is the corresponding frequency w that
     # SNPs with frequency x,y,z in populations 1,2,3 would map to.
-    if f1 + f2 > 1:
+    if f1 + f2 > 1 + 1e-12:
         raise ValueError('Admixture proportions (f1=%f, f2 = %f) are '
                          'non-sensible.' % (f1, f2))
     ad_w = f1*xx[:,nuax,nuax] + f2*yy[nuax,:,nuax] + (1-f1-f2)*zz[nuax,nuax,:]
@@ -338,7 +349,7 @@ def _four_pop_admixture_intermediates(phi_4D, f1,f2,f3, xx,yy,zz,aa,bb):
     """
     # For each point x,y,z,a in phi, this is the corresponding frequency b that
     # SNPs with frequency x,y,z,a in populations 1,2,3,4 would map to.
-    if f1 + f2 + f3> 1:
+    if f1 + f2 + f3 > 1 + 1e-12:
         raise ValueError('Admixture proportions (f1=%f, f2 = %f, f3=%f) are '
                          'non-sensible.' % (f1, f2, f3))
     ad_w = f1*xx[:,nuax,nuax,nuax] + f2*yy[nuax,:,nuax,nuax] + f3*zz[nuax,nuax,:,nuax]\
@@ -357,7 +368,7 @@ def _five_pop_admixture_intermediates(phi_5D, f1,f2,f3,f4, xx,yy,zz,aa,bb,cc):
     """
     # For each point x,y,z,a,b in phi, this is the corresponding frequency c that
     # SNPs with frequency x,y,z,a,b in populations 1,2,3,4,5 would map to.
-    if f1 + f2 + f3 + f4 > 1:
+    if f1 + f2 + f3 + f4 > 1 + 1e-12:
         raise ValueError('Admixture proportions (f1=%f, f2 = %f, f3=%f, f4=%f) are '
                          'non-sensible.' % (f1, f2, f3,  f4))
     ad_w = f1*xx[:,nuax,nuax,nuax,nuax] + f2*yy[nuax,:,nuax,nuax,nuax] + f3*zz[nuax,nuax,:,nuax,nuax]\
@@ -387,6 +398,7 @@ def phi_2D_to_3D_admix(phi, f1, xx,yy,zz, deme_ids=None):
     Returns:
         phi_3D (array): A new three-dimensional phi array.
     """
+    _check_proportions(f1)
     Demes.cache.append(Demes.Split(proportions=[f1, 1-f1], deme_ids=deme_ids))
 
     lower_z_index, upper_z_index, frac_lower, frac_upper, norm \
@@ -510,6 +522,7 @@ def phi_2D_admix_1_into_2(phi, f, xx,yy):
     Returns:
         phi (array): The updated phi array.
     """
+    _check_proportions(f)
     # This is just like the the split_admix situation, but we're splitting into
     # a population with zz=yy. We could do this by creating a xx by yy by yy
     # array, then integrating out the second population. That's a big waste of
@@ -551,6 +564,7 @@ def phi_2D_admix_2_into_1(phi, f, xx,yy):
     Returns:
         phi (array): The updated phi array.
     """
+    _check_proportions(f)
     # Note that it's 1-f here since f now denotes the fraction coming from
     # population 2.
     Demes.cache.append(Demes.Pulse(sources=[2], dest=1, proportions=[f]))
@@ -623,6 +637,7 @@ def phi_3D_admix_1_and_3_into_2(phi, f1,f3, xx,yy,zz):
     Returns:
         phi (array): The updated phi array.
     """
+    _check_proportions(f1,f3)
     Demes.cache.append(Demes.Pulse(sources=[1,3], dest=2, proportions=[f1,f3]))
     lower_w_index, upper_w_index, frac_lower, frac_upper, norm \
             = _three_pop_admixture_intermediates(phi, f1,1-f1-f3, xx,yy,zz, yy)
@@ -660,6 +675,7 @@ def phi_3D_admix_2_and_3_into_1(phi, f2,f3, xx,yy,zz):
     Returns:
         phi (array): The updated phi array.
     """
+    _check_proportions(f2,f3)
     Demes.cache.append(Demes.Pulse(sources=[2,3], dest=1, proportions=[f2,f3]))
     lower_w_index, upper_w_index, frac_lower, frac_upper, norm \
             = _three_pop_admixture_intermediates(phi, 1-f2-f3,f2, xx,yy,zz, xx)
@@ -699,6 +715,7 @@ def phi_4D_admix_into_1(phi, f2,f3,f4, xx,yy,zz,aa):
     Returns:
         phi (array): The updated phi array.
     """
+    _check_proportions(f2,f3,f4)
     Demes.cache.append(Demes.Pulse(sources=[2,3,4], dest=1, proportions=[f2,f3,f4]))
     lower_w_index, upper_w_index, frac_lower, frac_upper, norm \
             = _four_pop_admixture_intermediates(phi, 1-f2-f3-f4,f2,f3, xx,yy,zz,aa, xx)
@@ -777,6 +794,7 @@ def phi_4D_admix_into_3(phi, f1,f2,f4, xx,yy,zz,aa):
     Returns:
         phi (array): The updated phi array.
     """
+    _check_proportions(f1,f2,f4)
     Demes.cache.append(Demes.Pulse(sources=[1,2,4], dest=3, proportions=[f1, f2, f4]))
     lower_w_index, upper_w_index, frac_lower, frac_upper, norm \
             = _four_pop_admixture_intermediates(phi, f1,f2,1-f1-f2-f4, xx,yy,zz,aa, yy)
@@ -815,6 +833,7 @@ def phi_4D_admix_into_2(phi, f1,f3,f4, xx,yy,zz,aa):
     Returns:
         phi (array): The updated phi array.
     """
+    _check_proportions(f1,f3,f4)
     Demes.cache.append(Demes.Pulse(sources=[1,3,4], dest=2, proportions=[f1, f3, f4]))
     lower_w_index, upper_w_index, frac_lower, frac_upper, norm \
             = _four_pop_admixture_intermediates(phi, f1,1-f1-f3-f4,f3, xx,yy,zz,aa, yy)
@@ -855,6 +874,7 @@ def phi_5D_admix_into_1(phi, f2,f3,f4,f5, xx,yy,zz,aa,bb):
     Returns:
         phi (array): The updated phi array.
     """
+    _check_proportions(f2,f3,f4,f5)
     lower_w_index, upper_w_index, frac_lower, frac_upper, norm \
             = _five_pop_admixture_intermediates(phi, 1-f2-f3-f4-f5,f2,f3,f4, xx,yy,zz,aa,bb, xx)
 
@@ -895,6 +915,7 @@ def phi_5D_admix_into_2(phi, f1,f3,f4,f5, xx,yy,zz,aa,bb):
     Returns:
         phi (array): The updated phi array.
     """
+    _check_proportions(f1,f3,f4,f5)
     lower_w_index, upper_w_index, frac_lower, frac_upper, norm \
             = _five_pop_admixture_intermediates(phi, f1, 1-f1-f3-f4-f5,f3,f4, xx,yy,zz,aa,bb, xx)
 
@@ -935,6 +956,7 @@ def phi_5D_admix_into_3(phi, f1,f2,f4,f5, xx,yy,zz,aa,bb):
     Returns:
         phi (array): The updated phi array.
     """
+    _check_proportions(f1,f2,f4,f5)
     lower_w_index, upper_w_index, frac_lower, frac_upper, norm \
             = _five_pop_admixture_intermediates(phi, f1, f2, 1-f1-f2-f4-f5,f4, xx,yy,zz,aa,bb, xx)
 
@@ -975,6 +997,7 @@ def phi_5D_admix_into_4(phi, f1,f2,f3,f5, xx,yy,zz,aa,bb):
     Returns:
         phi (array): The updated phi array.
     """
+    _check_proportions(f1,f2,f3,f5)
     lower_w_index, upper_w_index, frac_lower, frac_upper, norm \
             = _five_pop_admixture_intermediates(phi, f1, f2, f3, 1-f1-f2-f3-f5, xx,yy,zz,aa,bb, xx)
 
